@@ -30,6 +30,7 @@ type driver struct {
 	name     string
 	src      string
 	inputs   map[string]interface{}
+	mods     map[string]string
 	infinite bool // does not terminate until spin is set to false
 	wantOut  string
 	reset    map[string]interface{} // Set before the second run
@@ -42,6 +43,10 @@ var drivers = []driver{
 		infinite: true, wantOut: "int:7", reset: map[string]interface{}{"spin": false}},
 	{name: "nested-loop", src: "out := 0; for spin { for i := 0; i < 2; i++ { n = (n+i)%2 } }; out = 7", inputs: map[string]interface{}{"spin": true, "n": 0},
 		infinite: true, wantOut: "int:7", reset: map[string]interface{}{"spin": false}},
+	{name: "closure-loop", src: "out := 0; mk := func() { c := 0; return func() { c = (c+1)%3; return c } }; f := mk(); for spin { n = f() }; out = 7",
+		inputs: map[string]interface{}{"spin": true, "n": 0}, infinite: true, wantOut: "int:7", reset: map[string]interface{}{"spin": false}},
+	{name: "module-loop", src: "out := 0; m := import(\"mod\"); for spin { n = m.next(n) }; out = 7", mods: map[string]string{"mod": "export {next: func(x) { return (x+1)%3 }}"},
+		inputs: map[string]interface{}{"spin": true, "n": 0}, infinite: true, wantOut: "int:7", reset: map[string]interface{}{"spin": false}},
 	{name: "terminating", src: "out := a + 1", inputs: map[string]interface{}{"a": 41}, wantOut: "int:42", reset: map[string]interface{}{"a": 41}},
 	{name: "native-call", src: "out := len(arr) + a", inputs: map[string]interface{}{"arr": []interface{}{1, 2}, "a": 40}, wantOut: "int:42", reset: map[string]interface{}{"a": 40}},
 	{name: "runtime-error", src: "out := a + \"x\"", inputs: map[string]interface{}{"a": 1}, wantOut: "", reset: map[string]interface{}{"a": 1}},
@@ -101,6 +106,13 @@ func (h harness) Start(s *vsched.Sched) vsched.World {
 	sc := tengo.NewScript([]byte(h.d.src))
 	for k, v := range h.d.inputs {
 		_ = sc.Add(k, v)
+	}
+	if h.d.mods != nil {
+		mm := tengo.NewModuleMap()
+		for n, src := range h.d.mods {
+			mm.AddSourceModule(n, []byte(src))
+		}
+		sc.SetImports(mm)
 	}
 	c, err := sc.Compile()
 	if err != nil {
@@ -355,9 +367,6 @@ func main() {
 	var states, trans, execs, terms, branching int64
 	outcomes := report.NewDistinctSet()
 	for _, d := range drivers {
-		if !r.Thorough() && d.name == "nested-loop" {
-			continue
-		}
 		res := vsched.Explore(harness{d}, vsched.Options{MaxStates: r.Pick(300000, 3000000)})
 		tengo.VerifNewVM = nil
 		states += int64(res.States)
